@@ -379,3 +379,135 @@ Proof.
   destruct (parse_total s) as (t & n & E & _). exists t, n. unfold from_str_relaxed, from_str. rewrite E.
   split; [reflexivity|]. split; [eapply parse_text; exact E|]. split; intros H; destruct n; congruence.
 Qed.
+
+(* ================= nesting depth (the stack clause of C02) ================= *)
+Definition dle (k : nat) (l : list tree) : Prop := Forall (fun e => depth e <= k) l.
+
+Lemma depth_node k cs d : dle d cs -> depth (Node k cs) <= S d.
+Proof.
+  intros H. cbn [depth]. apply le_n_S. induction H as [|x l Hx Hl IH]; [lia|]. cbn. lia.
+Qed.
+Lemma dle_app k a b : dle k a -> dle k b -> dle k (a ++ b).
+Proof. intros Ha Hb. apply Forall_app. split; assumption. Qed.
+Lemma dle_mono k k' l : k <= k' -> dle k l -> dle k' l.
+Proof. intros Hk H. eapply Forall_impl; [|exact H]. cbn. intros; lia. Qed.
+
+Lemma bump_while_depth p ts e r : bump_while p ts = (e, r) -> dle 0 e.
+Proof.
+  revert e r. induction ts as [|[k s] t IH]; intros e r H; cbn [bump_while] in H.
+  - inversion H. constructor.
+  - destruct (p k).
+    + destruct (bump_while p t) as [e' r'] eqn:E. inversion H; subst. constructor; [cbn; lia|eapply IH; reflexivity].
+    + inversion H. constructor.
+Qed.
+
+Lemma pe_comments_depth m : forall ts e r n b, length ts <= m -> pe_comments ts = (e, r, n, b) -> dle 1 e.
+Proof.
+  induction m as [|m IH]; intros ts e r n b Hl H.
+  - destruct ts; [|cbn in Hl; lia]. inversion H. constructor.
+  - destruct ts as [|[k s] t]; cbn [pe_comments] in H; [inversion H; constructor|].
+    destruct k; try (inversion H; constructor).
+    destruct t as [|[g s'] t']; [inversion H; subst; constructor; [cbn; lia|constructor]|].
+    destruct (pe_comments t') as [[[e' rest] n'] early] eqn:E.
+    assert (Hrec : dle 1 e') by (eapply (IH t'); [cbn in Hl; lia|exact E]).
+    destruct g; inversion H; subst; (constructor; [cbn; lia|]); (constructor; [cbn; lia|exact Hrec]).
+Qed.
+
+Lemma pe_expect_depth k ts e r n : pe_expect k ts = (e, r, n) -> dle 1 e.
+Proof.
+  unfold pe_expect. intros H. destruct ts as [|[k' s] t].
+  - inversion H; subst. constructor; [cbn; lia|constructor].
+  - destruct (kind_eqb k' k).
+    + unfold skip_ws in H. destruct (bump_while is_ws_or_comment t) as [e' r'] eqn:E. inversion H; subst.
+      constructor; [cbn; lia|]. eapply dle_mono; [|eapply bump_while_depth; exact E]. lia.
+    + inversion H; subst. constructor; [cbn; lia|constructor].
+Qed.
+
+Lemma pe_lines_depth fuel : forall ts e r n, pe_lines fuel ts = Ok (e, r, n) -> dle 1 e.
+Proof.
+  induction fuel as [|f IH]; intros ts e r n H; cbn [pe_lines] in H; [discriminate|].
+  destruct (bump_while is_ws_or_value ts) as [e1 r1] eqn:E1.
+  pose proof (dle_mono 0 1 _ ltac:(lia) (bump_while_depth _ _ _ _ E1)) as D1.
+  destruct r1 as [|[k s] r2]; [inversion H; subst; exact D1|].
+  destruct (match k with NEWLINE => ([Tok k s], 0) | _ => ([Node ERROR [Tok k s]], 1) end) as [e2 n2] eqn:E2.
+  assert (D2 : dle 1 e2) by (destruct k; inversion E2; subst; (constructor; [cbn; lia|constructor])).
+  destruct r2 as [|[k3 si] r3]; [inversion H; subst; apply dle_app; assumption|].
+  destruct k3; try (inversion H; subst; apply dle_app; assumption).
+  unfold skip_ws in H. destruct (bump_while is_ws_or_comment r3) as [e3 r4] eqn:E3.
+  pose proof (dle_mono 0 1 _ ltac:(lia) (bump_while_depth _ _ _ _ E3)) as D3.
+  destruct (pe_lines f r4) as [[[e5 r5] n5]| | |] eqn:E5; try discriminate.
+  inversion H; subst. apply IH in E5.
+  apply dle_app; [exact D1|]. apply dle_app; [exact D2|]. constructor; [cbn; lia|]. apply dle_app; assumption.
+Qed.
+
+Lemma parse_entry_depth ts e r n : parse_entry ts = Ok (e, r, n) -> dle 2 e.
+Proof.
+  unfold parse_entry. intros H.
+  destruct (pe_comments ts) as [[[e0 r0] n0] early] eqn:E0.
+  pose proof (dle_mono 1 2 _ ltac:(lia) (pe_comments_depth (length ts) _ _ _ _ _ (le_n _) E0)) as D0.
+  destruct early; [inversion H; subst; exact D0|].
+  assert (Hmain : (let '(e1, r1, n1) := pe_expect KEY r0 in
+                   let '(e2, r2, n2) := pe_expect COLON r1 in
+                   match pe_lines (S (length r2)) r2 with
+                   | Ok (e3, r3, n3) => Ok (e0 ++ [Node ENTRY (e1 ++ e2 ++ e3)], r3, n0 + n1 + n2 + n3)
+                   | Err x => Err x | Panic x => Panic x | OutOfFuel => OutOfFuel
+                   end) = Ok (e, r, n) -> dle 2 e).
+  { clear H. intros H.
+    destruct (pe_expect KEY r0) as [[e1 r1] n1] eqn:E1.
+    destruct (pe_expect COLON r1) as [[e2 r2] n2] eqn:E2.
+    destruct (pe_lines (S (length r2)) r2) as [[[e3 r3] n3]| | |] eqn:E3; try discriminate.
+    inversion H; subst. apply dle_app; [exact D0|]. constructor; [|constructor].
+    apply depth_node. apply dle_app; [eapply pe_expect_depth; exact E1|].
+    apply dle_app; [eapply pe_expect_depth; exact E2|eapply pe_lines_depth; exact E3]. }
+  destruct (cur r0) as [k|]; [|inversion H; subst; exact D0].
+  destruct k; try (apply Hmain; exact H). inversion H; subst; exact D0.
+Qed.
+
+Lemma pp_entries_depth fuel : forall ts e r n, pp_entries fuel ts = Ok (e, r, n) -> dle 2 e.
+Proof.
+  induction fuel as [|f IH]; intros ts e r n H; cbn [pp_entries] in H.
+  - destruct (cur ts) as [k|]; [destruct k|]; try discriminate; inversion H; constructor.
+  - destruct (cur ts) as [k|] eqn:Ec; [|inversion H; constructor].
+    destruct k; try (inversion H; constructor; fail);
+    (destruct (parse_entry ts) as [[[e1 r1] n1]| | |] eqn:E1; try discriminate;
+     destruct (pp_entries f r1) as [[[e2 r2] n2]| | |] eqn:E2; try discriminate;
+     inversion H; subst; apply dle_app; [eapply parse_entry_depth; exact E1|eapply IH; exact E2]).
+Qed.
+
+Lemma empty_line_depth ts : forall e r, empty_line ts = (e, r) -> dle 0 e.
+Proof.
+  induction ts as [|[k s] t IH]; intros e r H; cbn [empty_line] in H; [inversion H; constructor|].
+  destruct k; try (destruct (empty_line t) as [e' r'] eqn:E; inversion H; subst; constructor; [cbn; lia|eapply IH; reflexivity]).
+  inversion H; subst. constructor; [cbn; lia|constructor].
+Qed.
+
+Lemma skip_wsnl_depth fuel : forall ts e r, skip_wsnl fuel ts = Ok (e, r) -> dle 1 e.
+Proof.
+  induction fuel as [|f IH]; intros ts e r H; cbn [skip_wsnl] in H.
+  - destruct (starts_blank ts); [discriminate|]. inversion H; constructor.
+  - destruct (starts_blank ts); [|inversion H; constructor].
+    destruct (empty_line ts) as [e1 r1] eqn:E1. destruct (skip_wsnl f r1) as [[e2 r2]| | |] eqn:E2; try discriminate.
+    inversion H; subst. constructor; [apply depth_node; eapply empty_line_depth; exact E1|eapply IH; exact E2].
+Qed.
+
+Lemma parse_root_depth fuel : forall ts e n, parse_root fuel ts = Ok (e, n) -> dle 3 e.
+Proof.
+  induction fuel as [|f IH]; intros ts e n H; cbn [parse_root] in H.
+  - destruct ts; [|discriminate]. inversion H; constructor.
+  - destruct ts as [|t0 ts0]; [inversion H; constructor|]. remember (t0 :: ts0) as ts.
+    destruct (skip_wsnl (length ts) ts) as [[e1 r1]| | |] eqn:E1; try discriminate.
+    pose proof (dle_mono 1 3 _ ltac:(lia) (skip_wsnl_depth _ _ _ _ E1)) as D1.
+    destruct r1 as [|t1 r1']; [inversion H; subst; exact D1|]. remember (t1 :: r1') as r1.
+    unfold parse_paragraph in H.
+    destruct (pp_entries (length r1) r1) as [[[e2 r2] n2]| | |] eqn:E2; try discriminate.
+    destruct (parse_root f r2) as [[e3 n3]| | |] eqn:E3; try discriminate.
+    inversion H; subst e. apply dle_app; [exact D1|]. cbn [app].
+    constructor; [apply depth_node; eapply pp_entries_depth; exact E2|eapply IH; exact E3].
+Qed.
+
+Theorem parse_depth s t n : parse s = Ok (t, n) -> depth t <= 4.
+Proof.
+  unfold parse. destruct (lex s) as [ts| | |]; try discriminate. unfold parse_tokens.
+  destruct (parse_root (length ts) ts) as [[e n']| | |] eqn:E; try discriminate. intros H. inversion H; subst.
+  apply depth_node. eapply parse_root_depth. exact E.
+Qed.
